@@ -2,8 +2,12 @@ package main
 
 import (
 	"context"
+	"encoding/base64"
+	"encoding/binary"
 	"errors"
 	"fmt"
+	gproto "google.golang.org/protobuf/proto"
+	"math"
 	"path/filepath"
 	"sort"
 	"strings"
@@ -58,7 +62,10 @@ type fakeEnv struct {
 	startCk []struct {
 		node string
 		id   uint64
+		gen  int // number of assemblies formed when the runner was asked
 	}
+	lateAcked []uint64        // checkpoints of an abandoned assembly that were acknowledged while the next one was deploying
+	doneCk    map[uint64]bool // checkpoints that were no longer pending after an acknowledgement step of the script
 	log       []string
 	src       *cluster.VSource
 	loc       *cluster.RecLocation
@@ -69,7 +76,7 @@ type fakeEnv struct {
 	nDeploys  int
 	evalNow   time.Time // the job clock at the start of the evaluation in progress (hook)
 	formed    [][]string
-	illegal   []string // members of a formed assembly that were not registered-and-live at that evaluation
+	illegal   []string      // members of a formed assembly that were not registered-and-live at that evaluation
 	slowNext  chan struct{} // armed: the next Deploy call parks until it is closed (a member that loads for a long time)
 	parked    bool          // a Deploy call is parked on slowNext
 }
@@ -85,7 +92,15 @@ func (e *fakeEnv) wit() map[string]any {
 	for _, d := range e.deploys[from:] {
 		ds = append(ds, fmt.Sprintf("deploy %s members=%v ckpts=%v err=%v %s", d.node, d.members, d.ckpts, d.err, d.legal))
 	}
-	return map[string]any{"workers": e.workers, "script": e.log, "deploys": ds, "job_status": e.job.VerifStatus()}
+	var st []string
+	for _, op := range e.loc.Log() {
+		st = append(st, op.Op+" "+op.Path)
+	}
+	var cks []string
+	for _, s := range e.startCk {
+		cks = append(cks, fmt.Sprintf("StartCheckpoint(%d) -> %s while %d assemblies had been formed", s.id, s.node, s.gen))
+	}
+	return map[string]any{"workers": e.workers, "script": e.log, "deploys": ds, "job_status": e.job.VerifStatus(), "storage_log": st, "start_checkpoint_calls": cks, "assemblies": e.formed}
 }
 
 // liveFor reports whether the job may consider the node a registered live member right now.
@@ -143,7 +158,9 @@ func (s *fakeSR) StartCheckpoint(ctx context.Context, id uint64) error {
 	s.e.startCk = append(s.e.startCk, struct {
 		node string
 		id   uint64
-	}{s.node.Id, id})
+		gen  int
+	}{s.node.Id, id, len(s.e.formed)})
+	s.e.log = append(s.e.log, fmt.Sprintf("  [job -> %s: StartCheckpoint(%d)]", s.node.Id, id))
 	if n := s.e.nodes[s.node.Id]; n == nil || !n.alive {
 		return errors.New("verif: unreachable")
 	}
@@ -252,6 +269,7 @@ func (e *fakeEnv) installHooks() {
 				return
 			}
 			e.formed = append(e.formed, ids)
+			e.log = append(e.log, fmt.Sprintf("  [job forms assembly #%d %v]", len(e.formed), ids))
 			if len(a.OperatorIDs()) != e.workers || len(a.SourceRunnerIDs()) != e.workers {
 				e.illegal = append(e.illegal, fmt.Sprintf("assembly %v has %d operators and %d source runners, configured: %d", ids, len(a.OperatorIDs()), len(a.SourceRunnerIDs()), e.workers))
 			}
@@ -294,7 +312,13 @@ func (e *fakeEnv) waitStatus(d time.Duration, want ...string) bool {
 	return false
 }
 
-func c15Fake(c *lib.Ctx) {
+func c15Fake(c *lib.Ctx) { c15FakeRun(c, false) }
+
+// c12JobAcks: the same scripts judged by C12's job-level rule only (acknowledgements of an abandoned checkpoint
+// that arrive while the next assembly is being deployed never complete it).
+func c12JobAcks(c *lib.Ctx) { c15FakeRun(c, true) }
+
+func c15FakeRun(c *lib.Ctx, c12only bool) {
 	r := c.R
 	workers := 1 + r.Intn(3)
 	standbys := r.Intn(3)
@@ -370,12 +394,14 @@ func c15Fake(c *lib.Ctx) {
 		}
 		for n := range asked {
 			if e.nodes[n].alive && (only == nil || only(n)) {
-				e.job.HandleSourceRunnerCheckpointComplete(context.Background(), &jobpb.SourceRunnerCheckpointCompleteRequest{CheckpointId: id, SourceRunnerId: n, SplitStates: nil})
+				err := e.job.HandleSourceRunnerCheckpointComplete(context.Background(), &jobpb.SourceRunnerCheckpointCompleteRequest{CheckpointId: id, SourceRunnerId: n, SplitStates: nil})
+				e.logf("  [%s acknowledges checkpoint %d: %v]", n, id, err)
 			}
 		}
 		for _, m := range members {
 			if n := e.nodes[m]; n != nil && n.alive && (only == nil || only(m)) {
-				e.job.HandleOperatorCheckpointComplete(context.Background(), &snapshotpb.OperatorCheckpoint{CheckpointId: id, OperatorId: m, DkvFileUri: "x", KeyGroupRange: &snapshotpb.KeyGroupRange{Start: 0, End: 1}})
+				err := e.job.HandleOperatorCheckpointComplete(context.Background(), &snapshotpb.OperatorCheckpoint{CheckpointId: id, OperatorId: m, DkvFileUri: "x", KeyGroupRange: &snapshotpb.KeyGroupRange{Start: 0, End: 1}})
+				e.logf("  [%s acknowledges checkpoint %d: %v]", m, id, err)
 			}
 		}
 	}
@@ -443,9 +469,11 @@ func c15Fake(c *lib.Ctx) {
 		case x < 18:
 			e.logf("every live member acknowledges")
 			ackAll(nil)
+			e.markDone()
 		case x < 19:
 			e.logf("half of the members acknowledge")
 			ackAll(func(id string) bool { return lib.HashParts(id, step)[0] < '8' })
+			e.markDone()
 		default:
 			n := lib.Pick(r, all)
 			e.logf("next deploy to %s fails", n.id)
@@ -475,7 +503,33 @@ func c15Fake(c *lib.Ctx) {
 		if inDeploy {
 			c.Feat("membership_changes_during_deployment", 1)
 			for k := 1 + r.Intn(2); k > 0; k-- {
-				switch r.Intn(4) {
+				switch r.Intn(5) {
+				case 4:
+					// members of the PREVIOUS assembly that are still alive acknowledge the checkpoint that was in
+					// progress when it failed: the job has abandoned that checkpoint (it deploys a new assembly)
+					e.mu.Lock()
+					var id uint64
+					gen := 0
+					for _, s := range e.startCk {
+						if s.id > id {
+							id, gen = s.id, s.gen
+						}
+					}
+					cur := len(e.formed)
+					e.mu.Unlock()
+					e.mu.Lock()
+					wasDone := e.doneCk[id]
+					e.mu.Unlock()
+					// only a checkpoint that was still in progress when its assembly failed: one that all members had
+					// acknowledged before is complete and its (asynchronous) publication may legitimately still arrive
+					if id != 0 && gen < cur && !wasDone && !e.published(id) {
+						e.logf("during the deployment: live members of the previous assembly acknowledge its checkpoint %d", id)
+						ackAll(nil)
+						e.mu.Lock()
+						e.lateAcked = append(e.lateAcked, id)
+						e.mu.Unlock()
+						c.Feat("late_acks_during_deployment", 1)
+					}
 				case 0, 1:
 					n := e.nodes[lib.Pick(r, forming)]
 					e.logf("during the deployment: deregister member %s", n.id)
@@ -506,8 +560,11 @@ func c15Fake(c *lib.Ctx) {
 		if !e.waitStatus(5*time.Second, "Running", "Paused", "Init") {
 			c.Inconclusive("the job stayed in status %s", e.job.VerifStatus())
 		}
-		e.checkDeploys()
-		e.checkRunningOnMembers()
+		if !c12only {
+			e.checkDeploys()
+			e.checkRunningOnMembers()
+		}
+		e.checkAbandonedNotPublished()
 	}
 	releaseSlow()
 	// faults stop: revive nothing, but make sure enough fresh nodes exist and everybody heartbeats
@@ -565,12 +622,15 @@ func c15Fake(c *lib.Ctx) {
 			}
 			time.Sleep(200 * time.Microsecond)
 		}
-		e.checkDeploys()
+		if !c12only {
+			e.checkDeploys()
+		}
+		e.checkAbandonedNotPublished()
 	}
 	c.Feat("scripts", 1)
 	c.Feat("deploy_calls", int64(e.nDeploys))
 	c.Feat("assemblies_formed", int64(len(e.formed)))
-	if !progressed {
+	if !progressed && !c12only {
 		if pend := e.job.VerifPendingSnapshot(); pend != nil {
 			var gone []string
 			for _, id := range pend.WaitingFor {
@@ -588,6 +648,65 @@ func c15Fake(c *lib.Ctx) {
 	c.SetSig(e.nDeploys > 0, workers, standbys, e.log)
 	if c.Index < 3 {
 		c.Sample(map[string]any{"workers": workers, "standbys": standbys, "script": e.log})
+	}
+}
+
+// markDone: after an acknowledgement step of the script, every checkpoint the runners were asked for and that
+// is not the job's pending one any more is complete (or was discarded).
+func (e *fakeEnv) markDone() {
+	p := e.job.VerifPendingSnapshot()
+	e.mu.Lock()
+	defer e.mu.Unlock()
+	if e.doneCk == nil {
+		e.doneCk = map[uint64]bool{}
+	}
+	for _, s := range e.startCk {
+		if p == nil || p.ID != s.id {
+			e.doneCk[s.id] = true
+		}
+	}
+}
+
+// published reports whether a job snapshot with that id has been written (file name: job-<base64url of the
+// big-endian complement of the id>.snapshot, storage/snapshots pathSegment).
+func (e *fakeEnv) published(id uint64) bool {
+	buf := make([]byte, 8)
+	binary.BigEndian.PutUint64(buf, math.MaxUint64-id)
+	name := "job-" + base64.RawURLEncoding.EncodeToString(buf) + ".snapshot"
+	for _, op := range e.loc.Log() {
+		if op.Op == "write" && filepath.Base(op.Path) == name {
+			return true
+		}
+	}
+	return false
+}
+
+// checkAbandonedNotPublished (C12 at job level): a checkpoint that was in progress when its assembly failed is
+// never completed by acknowledgements that arrive while the job is already deploying the next assembly.
+func (e *fakeEnv) checkAbandonedNotPublished() {
+	e.mu.Lock()
+	late := append([]uint64{}, e.lateAcked...)
+	e.mu.Unlock()
+	if len(late) == 0 {
+		return
+	}
+	for _, op := range e.loc.Log() {
+		if op.Op != "write" || !strings.HasSuffix(op.Path, ".snapshot") {
+			continue
+		}
+		b, err := e.loc.Read(op.Path)
+		if err != nil {
+			continue
+		}
+		var jc snapshotpb.JobCheckpoint
+		if gproto.Unmarshal(b, &jc) != nil {
+			continue
+		}
+		for _, id := range late {
+			if jc.Id == id {
+				e.c.Fail("abandoned-checkpoint-published", e.wit(), "checkpoint %d was in progress when its assembly failed; acknowledgements of surviving members that arrived while the job was deploying the next assembly completed it and it was published (%s)", id, op.Path)
+			}
+		}
 	}
 }
 
